@@ -45,6 +45,10 @@ changed default, a reordered step, a helper reused where it does not fit â€¦) â€
 The change must be in non-test source (`crates/*/src/**`, the `.pest` grammar counts), small (ideally under 25 changed lines), not a
 special case on a literal input (no `if ticker == "XYZ"`), and add no dependencies.
 
+The change should need something SPECIFIC to manifest â€” a multi-step sequence of operations, an unusual but legal input, a crash or
+fault at a particular point, or (best) TWO COOPERATING SITES that each look fine alone (e.g. a helper whose contract shifts slightly
+and one caller that relied on the old contract) â€” not something ordinary use would expose at once.
+
 Variety matters. Earlier rounds already used the ideas below for this property; choose something DIFFERENT in kind, preferably in a
 different function or file, and preferably subtle (a clause of the statement that is easy to overlook):
 {chr(10).join(prior) if prior else '- (none)'}
